@@ -56,3 +56,18 @@ Theorem C14_tiling_size_under_cumulative :
   end.
 Proof. exact resolve_cum. Qed.
 Print Assumptions C14_tiling_size_under_cumulative.
+
+(* (b) across two inputs: "san{cum := Some t} x = san{cum := None} (x with the until-EOF mdat header decoded as Size t)".
+   Any x' whose plain tiling is the tiling of x under Some t and whose ftyp / moov payloads are those of x gives under
+   None exactly the result x gives under Some t.  (Writing t >= 2 into the header's 32-bit size field is one such x';
+   that byte-level instance is exercised by the pairwise oracle, not proved.) *)
+Theorem C14_cumulative_declared_size_inputs :
+  forall (inp inp' : input) (lenient : bool) (mx t : N) (bs : list tbox) (fuel fuel' : nat),
+  ilen inp <= U64MAX -> ilen inp' <= U64MAX -> t <= U32MAX ->
+  tiling (Some t) inp = Some bs -> tiling None inp' = Some bs ->
+  (forall b, In b bs -> is FTYP b || is MOOV b = true -> tb_payload inp b = tb_payload inp' b) ->
+  let r := mp4_sanitize {| max_metadata_size := mx; cumulative_mdat_box_size := Some t |} lenient U64MAX' inp fuel in
+  let r' := mp4_sanitize {| max_metadata_size := mx; cumulative_mdat_box_size := None |} lenient U64MAX' inp' fuel' in
+  r <> OutOfFuel -> r' <> OutOfFuel -> r = r'.
+Proof. exact cumulative_declared_size_inputs. Qed.
+Print Assumptions C14_cumulative_declared_size_inputs.
